@@ -527,10 +527,19 @@ fn mk_block(id: u64, mut txs: Vec<Transaction>, creator: &SaitoPublicKey, with_h
     b.id = id;
     let mut idx: u64 = 0;
     for t in txs.iter_mut() {
+        // what Transaction::generate does, minus the u64 totals (which panic on made-up amounts)
+        let _ = creator;
+        for s in t.from.iter_mut() {
+            s.generate_utxoset_key();
+        }
+        for (i, s) in t.to.iter_mut().enumerate() {
+            s.block_id = id;
+            s.tx_ordinal = idx;
+            s.slip_index = i as u8;
+            s.generate_utxoset_key();
+        }
         if with_hash {
-            t.generate(creator, idx, id);
-        } else {
-            t.generate_total_fees(idx, id);
+            t.generate_hash_for_signature();
         }
         if t.transaction_type == TransactionType::SPV {
             idx += t.txs_replacements as u64;
@@ -911,7 +920,7 @@ fn pick_request(rng: &mut Rng, w: &Wallet, latest: u64, gp: u64) -> (Vec<u64>, u
         if i == n - 1 {
             pays.push(left);
         } else {
-            let p = if left > 0 { rng.below(left + 1) } else { 0 };
+            let p = if left > 0 { rng.below(left) + if rng.chance(1, 2) { 1 } else { 0 } } else { 0 };
             pays.push(p);
             left -= p;
         }
@@ -948,7 +957,7 @@ fn case_chain(rng: &mut Rng, dbg: bool, len: usize) -> Rec {
             if rng.chance(1, 40) {
                 keys.pop();
             }
-            if rng.chance(1, 12) {
+            if rng.chance(1, 12) && !keys.is_empty() {
                 keys[0] = sim.pk;
             }
             sim.create(CreateCall { keys, payments: pays, fee, latest, gp }, true);
